@@ -6,6 +6,9 @@ CONSTANTS
   AutoOpts <- AutoNone
   RVs <- RVall
   UnsubModes = {}
+  BulkModes = {}
+  BulkLens = {}
+  WithClear = FALSE
   Forms = {"inst", "cls"}
   NoErrs = {FALSE, TRUE}
   RaiseTypes <- TAU
